@@ -26,7 +26,7 @@
 (* as a parameter; the clauses below judge it.                             *)
 (*                                                                         *)
 (* Contract clauses (name : source)                                        *)
-(*  PingScanExact : nmap.rst:26-30 "identify which hosts on a network are  *)
+(*  PingScanExact : nmap.rst:28-30 "identify which hosts on a network are  *)
 (*     active and reachable ... If a host responds with an ICMP Echo       *)
 (*     Reply, it is considered active"; ping_scan docstring (nmap.py:206)  *)
 (*     ":return: A list of active IP addresses that responded to the       *)
@@ -37,9 +37,9 @@
 (*     Router.receive_frame docstring "applies ACL rules").                *)
 (*  NeverDeadAddress : _explode_ip_address_network_array docstring         *)
 (*     (nmap.py:160-162) "Broadcast and network addresses are excluded     *)
-(*     from the result"; nmap.rst:126-139 (pc_3, not powered on, is not    *)
+(*     from the result"; nmap.rst:104, 128-139 (pc_3, not powered on, is   *)
 (*     listed); an address nobody owns cannot answer.                      *)
-(*  PortOpenIffListening / PortScanExact : nmap.rst:33-36 "detect open     *)
+(*  PortOpenIffListening / PortScanExact : nmap.rst:35-37 "detect open     *)
 (*     ports on a target host ... Open ports can indicate running          *)
 (*     services"; SoftwareManager.check_port_is_open docstring             *)
 (*     (software_manager.py:87-99) "True if the port is open and a service *)
@@ -57,8 +57,15 @@
 (*     "can_accept_nmap"; SoftwareManager.receive_payload_from_session_    *)
 (*     manager): a target whose NMAP is not RUNNING does not answer - this *)
 (*     is modelled as coded and listed as an assumption.                   *)
-(*  NothingForDeadTargets : nmap.rst:158-171 (horizontal scan of .12 and   *)
+(*  NothingForDeadTargets : nmap.rst:155-174 (horizontal scan of .12 and   *)
 (*     the powered-off .13 returns .12 only).                              *)
+(*  ScanRunsToEnd : _explode_ip_address_network_array docstring           *)
+(*     (nmap.py:158-162) "Explode a mixed array of IP addresses and        *)
+(*     networks into the unique individual IP addresses. This method takes *)
+(*     a combination of single and lists of IPv4 addresses and IPv4        *)
+(*     networks": every address the request names (network and broadcast   *)
+(*     addresses of its networks aside) is pinged / probed before the      *)
+(*     scan reports.                                                       *)
 (*  ReconScansOnlyLiveHosts : network_service_recon docstring              *)
 (*     (nmap.py:410-414) "performs a port scan on these hosts ... This     *)
 (*     two-step process ensures that the port scan is performed only on    *)
@@ -67,9 +74,9 @@
 (*     addresses in the order given"; _explode_ip_address_network_array    *)
 (*     "unique addresses in the order they were given"; protocols follow   *)
 (*     the request list (nmap.py:378).                                     *)
-(*  PortsInRequestOrder : nmap.rst:199-221 (vertical scan of               *)
+(*  PortsInRequestOrder : nmap.rst:193-211 (vertical scan of               *)
 (*     target_port=[21, 22, 80, 443] returns [FTP 21, HTTP 80]) and        *)
-(*     nmap.rst:243-262 (box scan): the open ports of a protocol are       *)
+(*     nmap.rst:228-258 (box scan): the open ports of a protocol are       *)
 (*     listed in the order of the request's port list.                     *)
 (*  ResultJsonSerialisable : ping_scan / port_scan docstrings              *)
 (*     ":param json_serializable: ... the return value should be json      *)
@@ -98,9 +105,14 @@
 (*  TargetsUntouched : scanning is observation - no docstring lets a scan  *)
 (*     change the operating state, health, software, files or interfaces   *)
 (*     of another node (ARP caches, sessions and traffic counters aside).  *)
+(*  Router addresses (as documented, not a divergence): a router takes     *)
+(*     TCP / UDP frames for any of its addresses, also one of a disabled   *)
+(*     interface, when they come in by an enabled one                      *)
+(*     (Router.check_send_frame_to_session_manager docstring), but answers *)
+(*     ICMP only for an enabled interface (RouterICMP.receive docstring).  *)
 (*  OwnAddress (latitude, not a clause): nmap.py:218 "Prevent ping scan on *)
 (*     this node" skips the scanner's own addresses, whereas the example   *)
-(*     in nmap.rst:134-139 lists pc_1's own address among the live hosts:  *)
+(*     in nmap.rst:131-139 lists pc_1's own address among the live hosts:  *)
 (*     the two sources disagree, so an own address may or may not appear.  *)
 (*                                                                         *)
 (* Configuration lives in variables that never change:                     *)
